@@ -19,6 +19,7 @@
     Input objects are association lists read with [lookup] (first member for a key); the texts the
     harness feeds have no duplicate members, so "first" is "the".  No proofs here. *)
 From Base Require Import Prelude Sx Json.
+From C08 Require Model.   (* [parse_v1_string]: the string form of legacy power levels (ruma-common serde/strings.rs) *)
 
 (** how a missing member is filled in *)
 Inductive dkind :=
@@ -43,12 +44,14 @@ Inductive ty :=
 | TEnum (aliases : list (str * str))      (* alias spelling -> canonical spelling *)
 | TBool
 | TInt (lo hi : Z)
+| TIntLax (lo hi : Z)                      (* `deserialize_with = deserialize_v1_powerlevel`: an integer, or a string holding one *)
 | TAny
 | TConst (c : json)                    (* the tag member of #[serde(tag = ..)] on a struct: always written as [c], not looked at when read *)
 | TObjAny
 | TOpt (t : ty)
 | TVec (t : ty)
 | TMap (c : N) (t : ty)                   (* key class 0 = String; otherwise an identifier class *)
+| TMapEnum (al : list (str * str)) (t : ty)   (* BTreeMap keyed by a string enum: keys canonicalised, later entry wins *)
 | TStruct (fs : list (fmeta * ty)).
 
 Inductive val :=
@@ -79,10 +82,10 @@ Section Serde.
     match t with
     | TStr => Some (VStr [])
     | TBool => Some (VBool false)
-    | TInt lo hi => if (lo <=? 0)%Z && (0 <=? hi)%Z then Some (VInt 0) else None
+    | TInt lo hi | TIntLax lo hi => if (lo <=? 0)%Z && (0 <=? hi)%Z then Some (VInt 0) else None
     | TOpt _ => Some VNone
     | TVec _ => Some (VVec [])
-    | TMap _ _ => Some (VMap [])
+    | TMap _ _ | TMapEnum _ _ => Some (VMap [])
     | TObjAny => Some (VAny (JObj []))
     | TAny => Some (VAny JNull)
     | TConst c => Some (VAny c)
@@ -117,6 +120,15 @@ Section Serde.
                     | JInt z => if (lo <=? z)%Z && (z <=? hi)%Z then Some (VInt z) else None
                     | _ => None
                     end
+    | TIntLax lo hi =>
+        match j with
+        | JInt z => if (lo <=? z)%Z && (z <=? hi)%Z then Some (VInt z) else None
+        | JStr s => match C08.Model.parse_v1_string s with
+                    | Some z => if (lo <=? z)%Z && (z <=? hi)%Z then Some (VInt z) else None
+                    | None => None
+                    end
+        | _ => None
+        end
     | TAny => Some (VAny j)
     | TConst c => Some (VAny c)
     | TObjAny => match j with JObj _ => Some (VAny j) | _ => None end
@@ -149,6 +161,20 @@ Section Serde.
                                         end
                                    else None
                   end) m)
+        | _ => None
+        end
+    | TMapEnum al t' =>
+        match j with
+        | JObj m =>
+            option_map VMap
+              ((fix go (m : list (str * json)) (acc : list (str * val)) : option (list (str * val)) :=
+                  match m with
+                  | [] => Some acc
+                  | (k, x) :: r => match deser t' x with
+                                   | Some v => go r (insert (assoc_alias k al) v acc)
+                                   | None => None
+                                   end
+                  end) m [])
         | _ => None
         end
     | TStruct fs =>
@@ -223,7 +249,7 @@ Section Serde.
     match t, v with
     | TStr, VStr s | TId _, VStr s | TEnum _, VStr s => Some (JStr s)
     | TBool, VBool b => Some (JBool b)
-    | TInt _ _, VInt z => Some (JInt z)
+    | TInt _ _, VInt z | TIntLax _ _, VInt z => Some (JInt z)
     | TAny, VAny j | TObjAny, VAny j | TConst _, VAny j => Some j
     | TOpt _, VNone => Some JNull
     | TOpt t', VSome v' => ser t' v'
@@ -237,7 +263,7 @@ Section Serde.
                           | _, _ => None
                           end
               end) l)
-    | TMap _ t', VMap m =>
+    | TMap _ t', VMap m | TMapEnum _ t', VMap m =>
         option_map JObj
           ((fix go (m : list (str * val)) : option (list (str * json)) :=
               match m with
